@@ -222,6 +222,14 @@ theorem reachable_jrep (m : Option Nat) (ops : List Op) :
     JRep heapRefines ((JB.new heapImpl m).run ops).1 ((JB.new listImpl m).run ops).1 :=
   (sim_run heapRefines (jrep_new heapRefines m) ops).2
 
+/-- the driver runs histories that buffer a full sequence-number cycle (≥ 4096-packet runs) on
+the list queue with a cached count (`fastImpl`) instead of the heap-level queue, for speed: both
+refine the list queue, so every history yields exactly the same records (results, events,
+playout head). -/
+theorem fast_equals_heap (m : Option Nat) (ops : List Op) :
+    ((JB.new fastImpl m).run ops).2 = ((JB.new heapImpl m).run ops).2 := by
+  rw [(sim_run fastRefines (jrep_new fastRefines m) ops).1, (sim_run heapRefines (jrep_new heapRefines m) ops).1]
+
 /-! ### 4. popping before playback starts is refused -/
 
 /-- ★ T4 `buffering_refuses`: while Buffering, Pop, PopAtSequence and PopAtTimestamp return
